@@ -92,7 +92,7 @@ Definition dMixCounts : dec (list Z) :=
   let* ns := dList (dSkip 3) in
   let* qs := dList (dSkip 4) in
   let* js := dList (let* _ := dSkip 5 in let* _ := dList (dSkip 2) in let* _ := dList (dSkip 2) in ret tt) in
-  let* ts := dList (dSkip 10) in
+  let* ts := dList (dSkip 12) in
   let* _ := dZ in
   let* acts := dList dZ in
   ret [Z.of_nat (length js); Z.of_nat (length ts); Z.of_nat (length acts)].
